@@ -67,3 +67,19 @@ pub fn split(total: usize, threads: usize, depth: usize) {
         false,
     );
 }
+
+/// `ska lo`: number of graph nodes and the entry nodes (decoded (k-1)-mers, sorted)
+pub fn lo_entries(nodes: usize, entries: &[String]) {
+    emit(
+        "lo.entries",
+        format!(
+            "\"nodes\":{nodes},\"entries\":[{}]",
+            entries
+                .iter()
+                .map(|e| format!("\"{e}\""))
+                .collect::<Vec<_>>()
+                .join(",")
+        ),
+        false,
+    );
+}
